@@ -127,8 +127,36 @@ def oracle(ctx, stores):
     return bad
 
 
+def oracle_returns(ctx):
+    """a function's return registers are those some caller reads after the call: values returned in a1..a7 and read by the
+    caller are no 'use after call' and no 'unused value'; a temporary the callee does not write, read after the call, is"""
+    import gen
+    cases = [gen.retreg_prog(ctx.rng) for _ in range(40 * ctx.scale(5))]
+    out = lib.run_impl(ctx, [lib.store_cmd("diag -", pipe.single(t), "a.s") for t, _, _ in cases], tag="oracle-returns")
+    bad = []
+    for (t, rets, genuine), line in zip(cases, out):
+        st, items = pipe.parse_diag_line(lib._PICKS.sub("", line))
+        if st != "ok":
+            continue
+        titles = [it[1] for it in items]
+        uac = titles.count("Invalid use after call")
+        why = None
+        if uac != (1 if genuine else 0):
+            why = "the caller reads %s, which the callee writes on every path%s: %d 'Invalid use after call' diagnostics" % (
+                rets, " (and t4, which it does not)" if genuine else "", uac)
+        elif "Unused value" in titles and not genuine:      # (with the genuine case, `li t4` before the call IS unused)
+            why = "a value returned in %s and read by the caller is reported as unused" % rets
+        if why:
+            bad.append(dict(files=pipe.single(t), base="a.s", kind="returns", why=why, output=line[:400]))
+    return bad
+
+
+def both(ctx, stores):
+    return oracle(ctx, stores) + oracle_returns(ctx)
+
+
 def run(ctx):
-    generic.run(ctx, "C02+C02pipe", ["live"], dict(conforming=40, flow=100, random=60, injected=40, loopfn=120, handlers=60, cutflow=30), oracle=oracle, what="liveness")
+    generic.run(ctx, "C02+C02pipe", ["live"], dict(conforming=40, flow=100, random=60, injected=40, loopfn=120, handlers=60, cutflow=30), oracle=both, what="liveness")
 
 
 replay = generic.replay
